@@ -492,7 +492,7 @@ func (c *collector) Call(s *slip.Scope, args slip.List, depth int) slip.Object {
 	return nil
 }
 
-var fronts = []string{"ReadStream", "ReadStreamOne", "ReadStreamEach", "ReadStreamPush", "cl:read-seek", "cl:read-all-seek", "cl:read-all-nonseek", "cl:peek+read-nonseek-safe", "swank:wire", "cl:read-from-string"}
+var fronts = []string{"ReadStream", "ReadStreamOne", "ReadStreamEach", "ReadStreamPush", "cl:read-seek", "cl:read-all-seek", "cl:read-all-nonseek", "cl:peek+read-nonseek-safe", "swank:wire", "gi:read-each", "gi:read-push", "cl:read-from-string"}
 
 func scopeFor(c *Case) *slip.Scope {
 	s := slip.NewScope()
@@ -622,6 +622,15 @@ func runFront(c *Case, front string, p Plan) (outcome, *source) {
 			s.Let("sim-stream", so)
 			v := slip.ReadString("(read sim-stream)", slip.NewScope()).Eval(s, nil)
 			return []slip.Object{v}, src.off
+		case "gi:read-each", "gi:read-push":
+			s.Let("sim-stream", &streamObj{Reader: rd})
+			src := `(let ((acc nil)) (read-each sim-stream (lambda (x) (setq acc (cons x acc)))) (reverse acc))`
+			if front == "gi:read-push" {
+				src = `(let ((ch (make-channel 8192)) (acc nil)) (read-push sim-stream ch) (channel-close ch) (range (lambda (x) (setq acc (cons x acc))) ch) (reverse acc))`
+			}
+			res := slip.ReadString(src, slip.NewScope()).Eval(s, nil)
+			lst, _ := res.(slip.List)
+			return lst, 0
 		case "cl:peek+read-nonseek-safe":
 			s.Let("sim-stream", slip.NewInputStream(rd))
 			peek := slip.ReadString("(peek-char t sim-stream nil nil)", slip.NewScope())
@@ -701,7 +710,7 @@ func judge(c *Case, front string, p Plan, ref, got outcome) *harness.Violation {
 	if got.kind == "go-panic" {
 		return viol("host-fault", "%s: stream read died with %s (string read: %s)", where, got.class, ref)
 	}
-	if strings.HasPrefix(front, "cl:") || front == "swank:wire" {
+	if strings.HasPrefix(front, "cl:") || strings.HasPrefix(front, "gi:") || front == "swank:wire" {
 		// Through the evaluator a Go-level PartialPanic arrives wrapped in an
 		// error condition, and a text without any object is an end-of-file
 		// condition for (read): "reported as not readable" is one class here.
